@@ -66,6 +66,10 @@ func genC13(t *rapid.T) *C13Case {
 			c.Prefix = append(c.Prefix, "logout-in") // during logout
 		}
 	}
+	if c.Role == "acceptor" && stage != 1 && rapid.IntRange(0, 3).Draw(t, "refusedFirst") == 0 {
+		// a Logon the acceptor refuses (interval outside its limits / method it does not allow) comes first
+		c.Prefix = append([]string{rapid.SampledFrom([]string{"bad-logon-interval", "bad-logon-method"}).Draw(t, "refusedKind")}, c.Prefix...)
+	}
 	switch rapid.IntRange(0, 3).Draw(t, "inflight") {
 	case 1:
 		c.Partial = rapid.IntRange(1, 60).Draw(t, "partial")
@@ -82,7 +86,7 @@ func genC13(t *rapid.T) *C13Case {
 		c.Parked = 1 // never more: a second sender would queue on the session mutex, which is not a durable wait
 	}
 	c.ParkKind = "send"
-	if c.Parked > 0 && len(c.Prefix) > 0 && c.Prefix[len(c.Prefix)-1] != "logout-in" && rapid.IntRange(0, 2).Draw(t, "parkResend") == 0 {
+	if c.Parked > 0 && hasLogon(c.Prefix) && c.Prefix[len(c.Prefix)-1] != "logout-in" && rapid.IntRange(0, 2).Draw(t, "parkResend") == 0 {
 		c.ParkKind = "resend"
 		c.Partial = 0 // the ResendRequest is the in-flight inbound message
 	}
@@ -91,6 +95,15 @@ func genC13(t *rapid.T) *C13Case {
 	}
 	c.DeltaNs = rapid.SampledFrom([]int64{0, 0, 1, 1000, 1e6}).Draw(t, "delta")
 	return c
+}
+
+func hasLogon(prefix []string) bool {
+	for _, a := range prefix {
+		if a == "logon" {
+			return true
+		}
+	}
+	return false
 }
 
 type c13Obs struct {
@@ -160,6 +173,12 @@ func checkC13(c *C13Case, rec *evid.Rec) (vs []pbt.Violation) {
 		nextInbound := logonMsg
 		for i, act := range c.Prefix {
 			switch act {
+			case "bad-logon-interval":
+				conn.Feed((&rig.InMsg{Type: rig.TLogon, Seq: next(), Fields: []rig.Tok{rig.F(rig.TagEncryptMethod, "0"),
+					rig.F(rig.TagHeartBtInt, "999"), rig.F(rig.TagUsername, "alice"), rig.F(rig.TagPassword, "secret")}}).Bytes())
+			case "bad-logon-method":
+				conn.Feed((&rig.InMsg{Type: rig.TLogon, Seq: next(), Fields: []rig.Tok{rig.F(rig.TagEncryptMethod, "7"),
+					rig.F(rig.TagHeartBtInt, fmt.Sprint(c.N)), rig.F(rig.TagUsername, "alice"), rig.F(rig.TagPassword, "secret")}}).Bytes())
 			case "logon":
 				conn.Feed(logonMsg())
 				nextInbound = func() []byte {
@@ -335,7 +354,10 @@ func checkC13(c *C13Case, rec *evid.Rec) (vs []pbt.Violation) {
 	rec.Hist("cause:" + c.Cause)
 	rec.Hist("role:" + c.Role)
 	rec.Hist(fmt.Sprintf("buf=%d", c.Buf))
-	if len(c.Prefix) == 0 {
+	if len(c.Prefix) > 0 && strings.HasPrefix(c.Prefix[0], "bad-logon") {
+		rec.Hist("refused-logon-first")
+	}
+	if !hasLogon(c.Prefix) {
 		rec.Hist("point:before-logon")
 	} else if c.Prefix[len(c.Prefix)-1] == "logout-in" {
 		rec.Hist("point:during-logout")
